@@ -21,7 +21,7 @@ CONC = [("conc-counter", {"quick": ["-n", "60"], "thorough": ["-n", "1200"], "se
 CONCSRV = [("concsrv-counter", {"quick": ["-n", "12"], "thorough": ["-n", "90"], "search": ["-n", "100"]}),
            ("concsrv-map", {"quick": ["-n", "12"], "thorough": ["-n", "90"], "search": ["-n", "100"]}),
            ("concsrv-list", {"quick": ["-n", "12"], "thorough": ["-n", "90"], "search": ["-n", "100"]})]
-DOC = [("doc", {"quick": ["-n", "150"], "thorough": ["-n", "2000"], "search": ["-n", "1500"]})]
+DOC = [("doc", {"quick": ["-n", "600"], "thorough": ["-n", "2000"], "search": ["-n", "1500"]})]
 REALTIME = [("realtime-counter", {"quick": ["-n", "8"], "thorough": ["-n", "60"], "search": ["-n", "60"]}),
             ("realtime-map", {"quick": ["-n", "8"], "thorough": ["-n", "60"], "search": ["-n", "60"]}),
             ("realtime-list", {"quick": ["-n", "8"], "thorough": ["-n", "60"], "search": ["-n", "60"]})]
@@ -32,7 +32,7 @@ PROPS = {
             "assumptions": ["lamport clocks below 2^63 (BSON has no uint64)", "snapshot operations: their body is covered by C10, not by the codec model"]},
     "C10": {"slices": CRDT + DOC, "trusted": ["Go encoding/json (Marshal/Unmarshal of the snapshot structs) is exercised, not modelled byte by byte: the marshalled JSON is parsed and compared field by field with the model's marshalled form"], "assumptions": ["Document snapshots: the tree is modelled, its marshalled form is not; restored Documents are compared by value and by continuation (Go oracle)"]},
     "C03": {"slices": API + DOC, "trusted": [], "assumptions": ["Document: modelled and replayed (Model/Doc.v), compared with a plain JSON value by a Go oracle; its refinement to plain JSON is not proved"]},
-    "C04": {"slices": [CRDT[2], API[2]], "trusted": [], "assumptions": ["order agreement ACROSS replicas rests on list convergence (C01, list instance not yet proved)"]},
+    "C04": {"slices": [CRDT[2], API[2]] + DOC, "trusted": [], "assumptions": ["Document arrays: modelled and replayed (Model/Doc.v) and compared with the slice operation on a plain JSON value; the order theorem across replicas is proved for List (Proofs/ListConv.v), Document arrays run the same algorithm in separate model functions"]},
     "C05": {"slices": WIRE, "trusted": SRV_TRUST, "assumptions": ["the composition of the proved ingredients over Net.v is not yet a theorem (C05_statement_list is a definition)"]},
     "C07": {"slices": WIREF, "trusted": SRV_TRUST, "assumptions": ["faults exercised: duplicated request, dropped response + retry; delayed (stale) responses are not driven", "C07_statement_list is a definition, not yet a theorem"]},
     "C08": {"slices": WIRED, "trusted": SRV_TRUST + ["fault model: a storage command fails atomically (no partial effect of the failing command itself); a server crash is modelled as the failure of the next command plus a lost response"],
